@@ -21,6 +21,7 @@
 #include <cstdint>
 #include <unistd.h>
 #include <sys/wait.h>
+#include <sys/resource.h>
 
 // fork mode (set by harnesses whose operations may corrupt memory or trap when objects alias: polynomials resize
 // the destination vector while iterating over the aliased operand; RecInt divides by a clobbered modulus): every
@@ -130,33 +131,83 @@ static inline bool is_div_op(const std::string& op) { return op == "div" || op =
 typedef std::string (*DomFn)(const Case&);
 static std::map<std::string, DomFn>& dom_table() { static std::map<std::string, DomFn> t; return t; }
 
+// CPU-time watchdog (load independent): a child that uses more than the budget gets SIGXCPU (24) and its case is reported as
+// "... CRASH 24"; the python side re-runs that single case with a larger budget (C15_CPU_BUDGET) before calling it a hang.
+static void cpu_budget(long per_case, long ncases) {
+    const char* e = getenv("C15_CPU_BUDGET");
+    long b = e ? atol(e) : 20;
+    if (b < 1) b = 20;
+    (void) per_case;
+    struct rlimit rl; rl.rlim_cur = (rlim_t) (b + ncases / 50); rl.rlim_max = rl.rlim_cur + 5;
+    setrlimit(RLIMIT_CPU, &rl);
+}
+static std::string run_one_forked(DomFn fn, const Case& c) {
+    { Case prep = c; prep.op = "__prepare__"; fn(prep); }     // build the domain object in the parent
+    int fds[2];
+    if (pipe(fds) != 0) return "PIPE-ERROR";
+    std::cout.flush();
+    pid_t pid = fork();
+    if (pid == 0) {
+        close(fds[0]); g_fd = fds[1]; cpu_budget(0, 1);
+        std::string r = fn(c);
+        if (write(g_fd, r.data(), r.size()) < 0) {}
+        _exit(0);
+    }
+    close(fds[1]);
+    std::string got; char buf[4096]; ssize_t k;
+    while ((k = read(fds[0], buf, sizeof buf)) > 0) got.append(buf, (size_t) k);
+    close(fds[0]);
+    int st = 0; waitpid(pid, &st, 0);
+    if (WIFSIGNALED(st)) got += " CRASH " + std::to_string(WTERMSIG(st));
+    for (size_t i = 0; i < got.size(); ++i) if (got[i] == '\n') got[i] = ' ';
+    return got;
+}
+static std::string answer(const std::string& line, bool forked) {
+    Case c;
+    if (!parse_case(line, c)) return line.empty() ? "" : "BAD-LINE";
+    std::map<std::string, DomFn>::iterator it = dom_table().find(c.dom);
+    if (it == dom_table().end()) return "UNKNOWN-DOM";
+    return forked ? run_one_forked(it->second, c) : it->second(c);
+}
 static int main_loop() {
     std::string line;
-    while (std::getline(std::cin, line)) {
-        Case c;
-        if (!parse_case(line, c)) { if (!line.empty()) std::cout << "BAD-LINE\n"; continue; }
-        std::map<std::string, DomFn>::iterator it = dom_table().find(c.dom);
-        if (it == dom_table().end()) { std::cout << "UNKNOWN-DOM\n"; continue; }
-        if (!g_fork) { std::cout << it->second(c) << "\n"; continue; }
-        { Case prep = c; prep.op = "__prepare__"; it->second(prep); }     // build the domain object in the parent
+    if (g_fork) {
+        while (std::getline(std::cin, line)) { if (line.empty()) continue; std::cout << answer(line, true) << "\n"; }
+        return 0;
+    }
+    // families whose cases cannot corrupt memory run in BATCHES inside one forked child (cheap); when a batch dies or exceeds its
+    // CPU budget, the unanswered cases of that batch are re-run one by one, each in its own child: a crash or a hang is then the
+    // failing input of one case, not a dead run
+    std::vector<std::string> batch;
+    bool more = true;
+    while (more) {
+        batch.clear();
+        while (batch.size() < 400 && (more = (bool) std::getline(std::cin, line))) if (!line.empty()) batch.push_back(line);
+        if (batch.empty()) continue;
         int fds[2];
-        if (pipe(fds) != 0) { std::cout << "PIPE-ERROR\n"; continue; }
+        if (pipe(fds) != 0) return 3;
         std::cout.flush();
         pid_t pid = fork();
         if (pid == 0) {
-            close(fds[0]); g_fd = fds[1]; alarm(10);
-            std::string r = it->second(c);
-            if (write(g_fd, r.data(), r.size()) < 0) {}
+            close(fds[0]); cpu_budget(0, (long) batch.size());
+            FILE* f = fdopen(fds[1], "w");
+            for (size_t i = 0; i < batch.size(); ++i) { std::string r = answer(batch[i], false); fprintf(f, "%s\n", r.c_str()); fflush(f); }
+            fclose(f);
             _exit(0);
         }
         close(fds[1]);
-        std::string got; char buf[4096]; ssize_t k;
+        std::string got; char buf[65536]; ssize_t k;
         while ((k = read(fds[0], buf, sizeof buf)) > 0) got.append(buf, (size_t) k);
         close(fds[0]);
         int st = 0; waitpid(pid, &st, 0);
-        if (WIFSIGNALED(st)) got += " CRASH " + std::to_string(WTERMSIG(st));
-        for (size_t i = 0; i < got.size(); ++i) if (got[i] == '\n') got[i] = ' ';
-        std::cout << got << "\n";
+        size_t done = 0, pos = 0;
+        while (done < batch.size()) {
+            size_t nl = got.find('\n', pos);
+            if (nl == std::string::npos) break;
+            std::cout << got.substr(pos, nl - pos) << "\n";
+            pos = nl + 1; ++done;
+        }
+        for (size_t i = done; i < batch.size(); ++i) std::cout << answer(batch[i], true) << "\n";
     }
     return 0;
 }
